@@ -67,6 +67,10 @@ Definition dict_update {K : Type} (eqb : K -> K -> bool) (d other : list K) : li
 Definition dict_get {K : Type} (eqb : K -> K -> bool) (d : list K) (k : K) : res unit :=
   if dict_has eqb d k then Ok tt else Err KeyError.
 
+(* sequencing in a method that changes object state s and may raise: the exception carries the state reached *)
+Definition bind_st {S A B : Type} (s : S) (r : res A) (k : A -> S * res B) : S * res B :=
+  match r with Ok a => k a | Err e => (s, Err e) end.
+
 (* generic facts *)
 Lemma for_each_ext {X S R : Type} (f g : X -> S -> res (ctl S R)) :
   (forall x s, f x s = g x s) -> forall l s, for_each f l s = for_each g l s.
